@@ -34,6 +34,11 @@ func (t *rotatingJWKS) RoundTrip(r *http.Request) (*http.Response, error) {
 	t.downloads++
 	set := jose.JSONWebKeySet{Keys: []jose.JSONWebKey{}}
 	for _, n := range t.published {
+		if n == "E" {
+			// an RSA encryption key published under the key id of signing key A
+			set.Keys = append(set.Keys, jose.JSONWebKey{Key: rotKey(n).Pub, KeyID: rotKid(n), Use: "enc", Algorithm: "RSA-OAEP"})
+			continue
+		}
 		set.Keys = append(set.Keys, jose.JSONWebKey{Key: rotKey(n).Pub, KeyID: rotKid(n), Use: "sig", Algorithm: "ES256"})
 	}
 	t.mu.Unlock()
@@ -52,17 +57,29 @@ func (s rotatingStorage) KeySet(context.Context) ([]op.Key, error) {
 	s.jwks.downloads++
 	keys := []op.Key{}
 	for _, n := range s.jwks.published {
+		if n == "E" {
+			keys = append(keys, opKey{id: rotKid(n), use: "enc", alg: "RSA-OAEP", key: rotKey(n).Pub})
+			continue
+		}
 		keys = append(keys, opKey{id: rotKid(n), use: "sig", alg: jose.ES256, key: rotKey(n).Pub})
 	}
 	return keys, nil
 }
 
-func rotKey(name string) *modelstore.SignKey { return modelstore.GenKey("c02-rot-"+name, jose.ES256) }
+func rotKey(name string) *modelstore.SignKey {
+	if name == "E" {
+		return modelstore.GenKey("c02-rot-E", jose.RS256)
+	}
+	return modelstore.GenKey("c02-rot-"+name, jose.ES256)
+}
 
 // rotKid: key N is published without a key id
 func rotKid(name string) string {
 	if name == "N" {
 		return ""
+	}
+	if name == "E" {
+		return "A"
 	}
 	return name
 }
